@@ -74,7 +74,7 @@ pub fn app_model(attrs: &[RAttr]) -> (Vec<RAttr>, Option<RAttr>, Option<RAttr>, 
     let mut plain: Vec<RAttr> = Vec::new();
     let (mut mi, mut sha, mut fp) = (None, None, None);
     for a in attrs {
-        let Ok(lib) = conv::to_lib(a) else { continue };
+        let Ok(lib) = conv::to_lib_app(a) else { continue };
         match a {
             RAttr::Mi(_) => mi = Some(a.clone()),
             RAttr::MiSha256(_) => sha = Some(a.clone()),
@@ -353,7 +353,7 @@ pub fn check_packet(
                 method: 0,
                 class: 0,
                 tid: [0; 12],
-                attrs: app.iter().filter(|a| crate::conv::to_lib(a).is_ok()).cloned().collect(),
+                attrs: app.iter().filter(|a| crate::conv::to_lib_app(a).is_ok()).cloned().collect(),
             },
             &mut Noise::zero(),
         )
